@@ -936,6 +936,20 @@ func (e *SpecEnv) call(x *spec.Call) Val {
 		if need(2) {
 			return Val{T: B, Term: fmt.Sprintf("(str.in_re %s %s)", argT(0), argT(1))}
 		}
+	case "yamlErr", "yamlValue":
+		// yamlErr(b, T) / yamlValue(b, T): error and decoded value of yaml.Unmarshal(b, &x) for x of the named type T
+		// (the decoder is a function of the bytes and the target type; see the model of yaml.Unmarshal)
+		if need(2) {
+			t, srt, ok := e.resolveType(spec.TypeExpr{Kind: "name", Name: x.Args[1].String()})
+			if !ok {
+				return e.fail(x, "%s: unknown type %s", fname, x.Args[1].String())
+			}
+			en, vn := yamlFuncs(vc, srt)
+			if fname == "yamlErr" {
+				return Val{T: errorType(), Term: fmt.Sprintf("(%s %s)", en, argT(0))}
+			}
+			return Val{T: t, Term: fmt.Sprintf("(%s %s)", vn, argT(0))}
+		}
 	case "isMethodOf":
 		// isMethodOf(n, "import/path.Type"): n is the name of an exported method of *Type (from go/types; A10)
 		if need(2) {
@@ -1539,3 +1553,13 @@ func (e *SpecEnv) callIfacePure(x *spec.Call, key string, n *types.Named, method
 	}
 	return Val{T: sig.Results(), Tuple: res}
 }
+
+// yamlFuncs declares the two uninterpreted functions that model yaml.Unmarshal into a value of sort srt.
+func yamlFuncs(vc *VC, srt string) (errFn, valFn string) {
+	errFn, valFn = "yaml_err_"+srt, "yaml_val_"+srt
+	vc.declareFun(errFn, []string{"Slice_Int"}, "Err")
+	vc.declareFun(valFn, []string{"Slice_Int"}, srt)
+	return
+}
+
+func errorType() types.Type { return types.Universe.Lookup("error").Type() }
